@@ -862,7 +862,7 @@ def gen_type(repo, file, name, opts, unit, em):
             em.raw("#[%s]\n" % o[5:])
     em.toks([gen(s2 + "\n\n")], file, src)
 
-DERIVED_FROM = {"C18": {"C15"}}
+DERIVED_FROM = {"C18": {"C15"}, "C16": {"C03"}}    # C16's "a later successful flush makes every update durable" rests on C03
 
 def generate(repo, ov, prop=None, canary=False, only=None):
     """prop: property id -> functions serving it are verified, the others become stubs.
